@@ -116,4 +116,35 @@ theorem get_of_committed (c : PercCfg) {S CV : Nat} {m : Mut} {ks : KeyState} (o
       simp [NoKV.Client.get, readVisible, hnb, hrr, expected, Mut.dataVal, hmk]
     | rollback => exact absurd hmk hk2
 
+/-- at or above the commit version a reader that is not blocked sees the transaction's record
+or a record committed later -/
+theorem read_ge_of_committed (c : PercCfg) {S CV : Nat} {m : Mut} {ks : KeyState} (ok : TsOK S CV m)
+    (hk : KInv S CV m ks) (hC : HasC S ks) {v : Nat} (hv : CV ≤ v) :
+    ∃ w, readVisible c ks.writes v = some w ∧ (w = ⟨CV, S, m.kind⟩ ∨ CV < w.commitTs) := by
+  obtain ⟨w, hw, hs, hkind⟩ := hC
+  have hw' : w = ⟨CV, S, m.kind⟩ := by
+    rcases hk.recs w hw hs with rfl | rfl
+    · exact absurd rfl hkind
+    · rfl
+  subst hw'
+  have hwr := mem_readable_of (c := c) hw hkind
+  cases hrr : readRec (readable c ks.writes) v with
+  | none => exact absurd hv (readRec_none hrr _ hwr)
+  | some b =>
+    obtain ⟨hb, _, hmax⟩ := readRec_some hrr
+    have hge : CV ≤ b.commitTs := hmax _ hwr hv
+    refine ⟨b, hrr, ?_⟩
+    by_cases e : b.commitTs = CV
+    · exact Or.inl (hk.uniq b (mem_readable hb) _ hw e)
+    · exact Or.inr (by omega)
+
+/-- below the commit version no reader is served from the transaction's commit record -/
+theorem read_lt_invisible (c : PercCfg) {S CV : Nat} {m : Mut} {ks : KeyState} (hk : KInv S CV m ks)
+    {v : Nat} (hv : v < CV) {w : WriteRec} (hr : readVisible c ks.writes v = some w) (hs : w.startTs = S) :
+    w.kind = .rollback := by
+  obtain ⟨hb, hle, _⟩ := readRec_some hr
+  rcases hk.recs w (mem_readable hb) hs with rfl | rfl
+  · rfl
+  · exact absurd hle (by simp only; omega)
+
 end NoKV.Client
